@@ -119,10 +119,10 @@ pub fn chunks() -> BoxedStrategy<Vec<u16>> {
 pub fn io_cfg(p: &Profile) -> BoxedStrategy<IoCfg> {
     if !p.partial_io {
         let pf = p.pend_first_pct;
-        return pct(pf).prop_map(|pend_first| IoCfg { read_chunks: vec![], write_chunks: vec![], pend_first }).boxed();
+        return pct(pf).prop_map(|pend_first| IoCfg { read_chunks: vec![], write_chunks: vec![], pend_first, read_cuts: vec![] }).boxed();
     }
     (chunks(), chunks(), pct(p.pend_first_pct))
-        .prop_map(|(read_chunks, write_chunks, pend_first)| IoCfg { read_chunks, write_chunks, pend_first })
+        .prop_map(|(read_chunks, write_chunks, pend_first)| IoCfg { read_chunks, write_chunks, pend_first, read_cuts: vec![] })
         .boxed()
 }
 
